@@ -2,6 +2,7 @@ package react
 
 import (
 	"context"
+	"sync"
 
 	"github.com/cloudwego/eino/components/model"
 	"github.com/cloudwego/eino/components/tool"
@@ -125,3 +126,53 @@ func c09AgentS(direct bool, spareInput bool, shared bool) {
 func VerifC09Agent()            { c09Agent(false, vchoose("spare", 2) == 1) }
 func VerifC09AgentDirect()      { c09Agent(true, false) }
 func VerifC09AgentSharedInput() { c09AgentS(false, true, true) }
+
+type c09CtxKey struct{}
+
+var c09Mu sync.Mutex
+
+// the per-run context reaches every user-supplied hook: a custom StreamToolCallChecker sees the context of the run
+// that calls it (two overlapping runs with different context values), not the one the agent was built with
+func VerifC09AgentRunContext() {
+	base := context.Background()
+	vcfg("delaybound", 1)
+	vcfg("race", 1)
+	vcfg("selectfirst", 1)
+	seen := map[string]string{}
+	cfg := &AgentConfig{ToolCallingModel: &c09Model{yield: true}, MaxStep: 6,
+		ToolsConfig: compose.ToolsNodeConfig{Tools: []tool.BaseTool{&c09Tool{"t0"}}},
+		StreamToolCallChecker: func(ctx context.Context, sr *schema.StreamReader[*schema.Message]) (bool, error) {
+			defer sr.Close()
+			who, _ := ctx.Value(c09CtxKey{}).(string)
+			msg, err := sr.Recv()
+			if err != nil {
+				return false, nil
+			}
+			c09Mu.Lock()
+			seen[msg.Content] = who
+			c09Mu.Unlock()
+			return len(msg.ToolCalls) > 0, nil
+		}}
+	ag, err := NewAgent(context.WithValue(base, c09CtxKey{}, "constructor"), cfg)
+	vassert(err == nil, "agent is created")
+	call := func(who string) error {
+		ctx := context.WithValue(base, c09CtxKey{}, who)
+		sr, e := ag.Stream(ctx, []*schema.Message{schema.UserMessage(who)})
+		if e != nil {
+			return e
+		}
+		for i := 0; i < 8; i++ {
+			if _, e := sr.Recv(); e != nil {
+				break
+			}
+		}
+		sr.Close()
+		return nil
+	}
+	var e2 error
+	go func() { e2 = call("B") }()
+	e1 := call("A")
+	vquiesce()
+	vassert(e1 == nil && e2 == nil, "both runs succeed")
+	vassert(seen["think-A"] == "A" && seen["think-B"] == "B", "the tool-call checker is called with the context of the run it serves")
+}
